@@ -75,6 +75,9 @@ func VerifC13_ListenerUpdateTLS() {
 		lc.AddrConfig = "127.0.0.1:8080"
 		lc.Inspector = verif.Choose("inspector", 2) == 1
 		lc.PerConnBufferLimitBytes = uint32(i + 1)
+		// fields a runtime update does not apply to the running listener
+		lc.BindToPort = verif.Choose("bind_port", 2) == 1
+		lc.DefaultReadBufferSize = 100 + i
 		// a native replay has no certificates: TLS status is only switched on under the engine
 		tlsc := v2.TLSConfig{Status: verif.Choose("tls_status", 2) == 1 && verif.Symbolic(), ServerName: string(rune('a' + i))}
 		lc.FilterChains = []v2.FilterChain{{TLSContexts: []v2.TLSConfig{tlsc}}}
@@ -104,8 +107,19 @@ func VerifC13_ListenerUpdateTLS() {
 			}
 		})
 		verif.Assert(found && stored.Inspector == lc.Inspector && stored.FilterChains[0].TLSContexts[0].Status == tlsc.Status, "the configuration store does not describe the updated listener")
+		// what is stored (and dumped) is the configuration the listener is running with, also for
+		// the fields an update leaves as they were
+		verif.Assert(found && stored.BindToPort == rc.BindToPort && stored.DefaultReadBufferSize == rc.DefaultReadBufferSize && stored.PerConnBufferLimitBytes == rc.PerConnBufferLimitBytes,
+			"the configuration store describes the update request, not the listener as it runs (a restart from the dump would differ)")
 	}
 	verif.Cover("end")
 }
 
 var _ api.AccessLog = nil
+
+// VerifC12_ListenerUpdateStored: the same exploration counted for C12 (the
+// stored listener configuration describes the live listener after updates).
+func VerifC12_ListenerUpdateStored() {
+	VerifC13_ListenerUpdateTLS()
+	verif.Cover("stored")
+}
